@@ -396,6 +396,87 @@ def c02(tier, seed):
     return res.finish()
 
 
+def lock_mc(res, cfgname, label, consts=None, inv=None, props=None, expect=None, timeout=1800):
+    import re
+    cfg = open(os.path.join(core.SPEC, "mc", cfgname)).read()
+    if inv is not None:
+        cfg = re.sub(r"(?m)^INVARIANTS .*$", ("INVARIANTS " + " ".join(inv)) if inv else "", cfg)
+    if props is not None:
+        cfg = re.sub(r"(?m)^PROPERTIES .*$", ("PROPERTIES " + " ".join(props)) if props else "", cfg)
+    for k, v in (consts or {}).items():
+        cfg, n = re.subn(r"(?m)^  %s (=|<-) .*$" % re.escape(k), "  %s %s" % (k, v), cfg)
+        if n != 1:
+            raise Infra("constant %s not found in %s" % (k, cfgname))
+    res.add_mc(label, core.tlc_mc("Lock", cfg, timeout=timeout), expect_violation=expect)
+
+
+def conc_shards(fams, seed, nseed, hist, steps):
+    return [["%conc"] + a for a in fam_shards(fams, seed, nseed, hist, steps)]
+
+
+def c14(tier, seed):
+    res = Result("C14", tier, seed)
+    core.build()
+    q = tier == "quick"
+    # the design: 2 databases, 2 writers + 2 readers x 2 transactions, a merger that (in the ideal design) locks
+    lock_mc(res, "Lock_base.cfg", "Lock(2 dbs, 2w+2r x2, merger)", consts=None if q else {"MaxTx": "= 3"})
+    lock_mc(res, "Lock_one.cfg", "Lock(1 db, 2w+2r+backup, merger)")
+    # the fixed defects are counterexamples of LockSet in the model
+    lock_mc(res, "Lock_base.cfg", "Lock+GlobalQueue", consts={"Sw": '= {"GlobalQueue"}'}, expect="LockSet")
+    lock_mc(res, "Lock_base.cfg", "Lock+SortShared", consts={"Sw": '= {"SortShared"}'}, expect="LockSet")
+    fams = [("conc", ["-mode", "keyval"]), ("conc", ["-mode", "keyonly"]), ("conc", ["-mode", "sparse"])]
+    shards = conc_shards(fams, seed, 2 if q else 16, 2 if q else 4, 8 if q else 14)
+    rs = core.drive_and_validate(res, shards, core.dev_set(), "concurrent transactions are not explained by the serial order of their lock acquisitions (or the mutex / lockset discipline is broken, or the race detector fired)",
+                                 "4-16 goroutines x 1-3 databases, mixed View/Update with injected yields, race-instrumented; linearised by the lock hook and validated as sequential histories; lock/access stream validated against LockCore")
+    res.cov["samples"] = core.sample_events(rs[0]["trace"], 4, ops={"begin", "commit"}) + core.sample_events(rs[1]["trace"], 4)
+    res.cov["distinct_nontrivial"] = res.extra.get("nontrivial", {}).get("concurrent_txs", 0)
+    res.cov["rule"] = ("non-trivial = concurrent transactions; each database's transactions are ordered by the number of writer acquisitions the lock hook "
+                       "counted when they got the lock, and TLC validates that order as a sequential history of Nuts.tla (every read of every read-only "
+                       "transaction is taken twice and must equal the same snapshot; end/begin ticks must respect real time); the raw lock/access events are "
+                       "validated against the RWMutex guards and the lockset monitor of LockCore.tla; race-detector reports are events no action admits")
+    res.assumptions += ["schedules are those the Go scheduler produces under injected yields on this machine, not all schedules; exhaustive interleavings only in the Lock.tla model",
+                        "a stuck run is detected by a 60 s watchdog"]
+    return res.finish()
+
+
+def c17(tier, seed):
+    res = Result("C17", tier, seed)
+    core.build()
+    q = tier == "quick"
+    lock_mc(res, "Lock_one.cfg", "Lock(1 db, ideal merge under the lock)")
+    # code-shaped merge: both the lockset violation and the lost update are counterexamples in the model
+    lock_mc(res, "Lock_one.cfg", "Lock+MergeUnlocked/LockSet", consts={"Sw": '= {"MergeUnlocked"}'}, inv=["LockSet"], props=[], expect="LockSet")
+    lock_mc(res, "Lock_one.cfg", "Lock+MergeUnlocked/NoLostUpdate", consts={"Sw": '= {"MergeUnlocked"}'}, inv=["Mutex"], props=["NoLostUpdate"], expect="NoLostUpdate")
+    fams = [("concmerge", ["-mode", "keyval"]), ("concmerge", ["-mode", "keyonly"]), ("concmergegate", ["-mode", "keyval"])]
+    shards = conc_shards(fams, seed, 1 if q else 12, 2 if q else 4, 8 if q else 14)
+    rs = core.drive_and_validate(res, shards, core.dev_set(), "a Merge running next to transactions changed a result, raced outside the recorded finding, or broke the lock discipline",
+                                 "3-8 goroutines with mixed View/Update while another goroutine calls Merge in a loop (race-instrumented), plus a gate-forced schedule in which an update commits between Merge's scan and rewrite")
+    res.cov["samples"] = core.sample_events(rs[1]["trace"], 6)
+    res.cov["distinct_nontrivial"] = res.extra.get("nontrivial", {}).get("concurrent_txs", 0)
+    res.cov["rule"] = ("as C14, with a merging goroutine: results of every transaction and the final / reopened observation must equal the merge-free serial "
+                       "history; the lock/access stream and the race reports must satisfy the lockset discipline")
+    res.assumptions += ["on the pinned tree Merge is not synchronised (known findings F-C17-1 lockset/race, F-C17-2 lost update): a history is judged up to its first deviating read"]
+    return res.finish()
+
+
+def c18(tier, seed):
+    res = Result("C18", tier, seed)
+    core.build()
+    q = tier == "quick"
+    lock_mc(res, "Lock_one.cfg", "Lock(1 db, backup as two-step reader)")
+    fams = [("concbackup", ["-mode", "keyval", "-rw", "fileio"]), ("concbackup", ["-mode", "keyonly", "-rw", "mmap"]),
+            ("concbackup", ["-mode", "keyval", "-rw", "mmap"]), ("concbackup", ["-mode", "sparse"])]
+    shards = conc_shards(fams, seed, 1 if q else 12, 2 if q else 4, 8 if q else 14)
+    rs = core.drive_and_validate(res, shards, core.dev_set(), "a backup directory did not open, or shows something else than the state committed when its read transaction started",
+                                 "a goroutine calls Backup(dir) in a loop while 3-8 goroutines write and read; every copy is opened with the same options and fully observed")
+    res.cov["samples"] = [dict(e, o="...") for e in core.sample_events(rs[0]["trace"], 4, ops={"backup"})]
+    res.cov["distinct_nontrivial"] = res.extra.get("events_by_op", {}).get("backup", 0)
+    res.cov["rule"] = ("non-trivial = Backup calls; each is placed in the serial order after the last writer that had acquired the lock when the copy started "
+                       "(gate hook inside Backup's read transaction), and TLC accepts it iff the copy opened and its full observation equals Replay(log) there")
+    res.assumptions += ["quiescent backups (no concurrent writer) are the special case of this; lists/sets/sorted sets are not part of the concurrent histories"]
+    return res.finish()
+
+
 def c15(tier, seed):
     res = Result("C15", tier, seed)
     core.build()
@@ -414,7 +495,7 @@ def c15(tier, seed):
     return res.finish()
 
 
-CHECKS = {"C02": c02, "C22": c22, "C20": c20, "C03": c03, "C19": c19, "C04": c04, "C10": c10, "C11": c11, "C16": c16, "C09": c09, "C15": c15, "C01": c01, "C05": c05, "C06": c06, "C07": c07, "C08": c08, "C12": c12, "C13": c13}
+CHECKS = {"C14": c14, "C17": c17, "C18": c18, "C02": c02, "C22": c22, "C20": c20, "C03": c03, "C19": c19, "C04": c04, "C10": c10, "C11": c11, "C16": c16, "C09": c09, "C15": c15, "C01": c01, "C05": c05, "C06": c06, "C07": c07, "C08": c08, "C12": c12, "C13": c13}
 
 
 def main(argv):
